@@ -87,6 +87,7 @@ def run(chk, repo, tier):
     B4 = chk.rule('B4', 'compartment numbering sites use the shared compartment order', floor=4)
     from rules import C02b
     C02b.run(chk, repo)
+    C02b.run_b8(chk, repo)
 
     um = repo.module(f'{NM}.update')
     am = repo.module(f'{NM}.advan')
